@@ -179,6 +179,27 @@ def abutting_scenarios(rng):
     return scs
 
 
+def hook_store_scenarios(rng):
+    """a store made through the API from inside a hook (the built-in syscall handlers store that way) needs write permission
+    like any other: all 8 masks, before- and after-hooks"""
+    scs = []
+    k = 0
+    for mask in range(8):
+        for when in ("before", "after"):
+            b = mc.Builder(f"hk{k}")
+            k += 1
+            b.api(op="mem_init_area", start=BASE, data=[rng.randrange(1, 256) for _ in range(48)])
+            b.api(op="mem_prot", start=BASE, prot=mask)
+            data = [rng.randrange(1, 256) for _ in range(4)]
+            b.api(op="hook", when=when, mnem="Nop", hid=1, ret="unhandled", stop=False, mark=False,
+                  does=[{"op": "mem_write_bytes", "addr": BASE + 16, "data": data}])
+            b.code += bytes([0x90])
+            b.api(op="step", guest={"t": "hookstore", "kind": "hookstore", "n": 4, "addr": BASE + 16, "data": data})
+            b.api(op="mem_read_bytes", addr=BASE + 16, len=4)
+            scs.append(b.scenario())
+    return scs
+
+
 def prot_history_scenarios(rng, n, length):
     scs = []
     guest = list(mc.TEMPLATES)
@@ -226,7 +247,7 @@ def run(tier, seed):
         sc1 = mask_path_scenarios(rng, list(mc.TEMPLATES))
         sc2 = code_area_scenarios(rng)
         sc3 = elf_scenarios(rng)
-        sc4 = prot_history_scenarios(rng, 150 if q else 15000, 10 if q else 16) + exec_revoke_scenarios(rng) + abutting_scenarios(rng)
+        sc4 = prot_history_scenarios(rng, 150 if q else 15000, 10 if q else 16) + exec_revoke_scenarios(rng) + abutting_scenarios(rng) + hook_store_scenarios(rng)
         n1, s1, _ = mc.validate(sc1 + sc2 + sc4, wd, "perm", rep, 8 if q else 14)
         n3, s3, _ = mc.validate(sc3, wd, "elf", rep, 8)
         kinds = set()
